@@ -441,7 +441,7 @@ def make_jobs(tier, seed):
     jobs = []
     kinds = ['walk', 'trend', 'constant', 'monotone', 'alternating', 'huge', 'tiny', 'flat', 'spikes', 'gappy', 'lattice']
     plan = {'window': (96, 24), 'recursive': (32, 6), 'ma': (24, 16), 'homogeneity': (24, 16)} if tier == 'quick' else \
-        {'window': (1200, 60), 'recursive': (480, 12), 'ma': (300, 40), 'homogeneity': (300, 40)}
+        {'window': (3600, 60), 'recursive': (1440, 12), 'ma': (900, 40), 'homogeneity': (900, 40)}
     for group, (njobs, n) in plan.items():
         for i in range(njobs):
             jobs.append({'group': group, 'seed': rng.randrange(1 << 30), 'n': n, 'kinds': kinds, 'mode': 'bc',
